@@ -226,3 +226,103 @@ func runProbe() {
 	}
 	fmt.Println("total", time.Since(t0))
 }
+
+// runProbeAgent: behaviour of the agent contract (multi-hop A -> B -> C).
+func runProbeAgent() {
+	w := NewWorld(3, 3)
+	A, B, C := w.Chains[0], w.Chains[1], w.Chains[2]
+	u0, u1, u2 := w.Users[0], w.Users[1], w.Users[2]
+	tA := w.DeployERC20(A)
+	w.DeployERC20(B)
+	tB := w.DeployERC20(B)
+	tB2 := w.DeployERC20(B)
+	w.DeployERC20(C)
+	w.DeployERC20(C)
+	tC := w.DeployERC20(C)
+	w.Mint(A, tA, u0.Addr, big.NewInt(1000000))
+	max := new(big.Int).Sub(new(big.Int).Lsh(big.NewInt(1), 256), big.NewInt(1))
+	w.Approve(A, u0, tA, endpointAddr, max)
+	fmt.Println("bind tB<-A.tA scale 1:", w.Bind(B, tB, lower(tA), A.ChainID, 1))
+	fmt.Println("bind tC<-B.tB scale 0:", w.Bind(C, tC, lower(tB), B.ChainID, 0))
+	_ = tB2
+	dump := func(tag string) {
+		fmt.Printf("[%s] A: u0=%v ep=%v out(A->B)=%v | B: agent=%v ep=%v pk=%v u2=%v supply=%v bind(A)=%v out(B->C)=%v | C: u1=%v supply=%v bind(B)=%v\n", tag,
+			w.Balance(A, tA, u0.Addr), w.Balance(A, tA, endpointAddr), w.OutTokens(A, tA, B.ChainID),
+			w.Balance(B, tB, agentAddr), w.Balance(B, tB, endpointAddr), w.Balance(B, tB, packetAddr), w.Balance(B, tB, u2.Addr), w.TotalSupply(B, tB), w.Bindings(B, tB, A.ChainID).Amount, w.OutTokens(B, tB, C.ChainID),
+			w.Balance(C, tC, u1.Addr), w.TotalSupply(C, tC), w.Bindings(C, tC, B.ChainID).Amount)
+	}
+	send := func(amt int64, rcv string, cd []byte, caddr string) *packettypes.Packet {
+		r := w.CrossChainCall(A, u0, packettypes.CrossChainData{DstChain: B.ChainID, TokenAddress: tA, Receiver: rcv, Amount: big.NewInt(amt),
+			ContractAddress: caddr, CallData: cd, CallbackAddress: zeroAddr, FeeOption: 0}, packettypes.Fee{TokenAddress: tA, Amount: big.NewInt(0)})
+		ps := SentPackets(toABCI(r.Events))
+		if len(ps) != 1 {
+			fmt.Println("  send failed", r.Err, r.VmError)
+			return nil
+		}
+		return &ps[0]
+	}
+	relay := func(p *packettypes.Packet) []packettypes.Packet {
+		res, err := w.RelayRecv(*p)
+		if err != nil {
+			fmt.Println("  recv ERROR", err)
+			return nil
+		}
+		acks := WrittenAcks(res.Events)
+		var ak packettypes.Acknowledgement
+		_ = ak.ABIDecode(acks[0])
+		on := SentPackets(res.Events)
+		fmt.Printf("  recv %s->%s #%d: code=%d msg=%q onward=%d\n", p.SrcChain, p.DstChain, p.Sequence, ak.Code, ak.Message, len(on))
+		for _, o := range on {
+			var td packettypes.TransferData
+			_ = td.ABIDecode(o.TransferData)
+			ft, fa := w.PacketFee(w.Chains[idx(w, o.SrcChain)], o.DstChain, o.Sequence)
+			fmt.Printf("    onward #%d sender=%s recv=%s amt=%v token=%s ori=%q cb=%s fee=(%s,%v)\n", o.Sequence, o.Sender, td.Receiver, new(big.Int).SetBytes(td.Amount), td.Token, td.OriToken, o.CallbackAddress, ft, fa)
+		}
+		_, err = w.RelayAck(*p, acks[0])
+		fmt.Println("  ack err:", err)
+		return on
+	}
+	// 1. gift 50 (=500 local) to the agent first, then agent multi-hop of 70 (=700) with fee 3
+	fmt.Println("== gift then multi-hop")
+	relay(send(50, lower(agentAddr), nil, ""))
+	dump("gift")
+	cd, _ := agentABI.Pack("send", u2.Addr, lower(u1.Addr), C.ChainID, big.NewInt(3))
+	on := relay(send(70, lower(agentAddr), cd, lower(agentAddr)))
+	dump("hop1 on B")
+	if len(on) == 1 {
+		relay(&on[0])
+		dump("hop1 on C")
+	}
+	// 2. multi-hop where the receiver of the first hop is NOT the agent (agent still holds the gift?)
+	fmt.Println("== receiver u2, call agent.send")
+	on = relay(send(20, lower(u2.Addr), cd, lower(agentAddr)))
+	dump("hop2 on B")
+	for i := range on {
+		relay(&on[i])
+	}
+	dump("hop2 done")
+	// 3. onward fails on C (bad receiver): refund path through the agent callback
+	fmt.Println("== onward fails on C")
+	cd, _ = agentABI.Pack("send", u2.Addr, "nothex", C.ChainID, big.NewInt(3))
+	on = relay(send(40, lower(agentAddr), cd, lower(agentAddr)))
+	dump("hop3 on B")
+	for i := range on {
+		relay(&on[i])
+	}
+	dump("hop3 refunded")
+	// 4. fee larger than the amount
+	fmt.Println("== fee too large")
+	cd, _ = agentABI.Pack("send", u2.Addr, lower(u1.Addr), C.ChainID, big.NewInt(300))
+	relay(send(40, lower(agentAddr), cd, lower(agentAddr)))
+	dump("hop4")
+	// 5. back to the origin chain A through the agent (burn path on B)
+	fmt.Println("== agent sends back to A (bound token: burn path)")
+	cd, _ = agentABI.Pack("send", u2.Addr, lower(u1.Addr), A.ChainID, big.NewInt(1))
+	on = relay(send(40, lower(agentAddr), cd, lower(agentAddr)))
+	dump("hop5 on B")
+	for i := range on {
+		relay(&on[i])
+	}
+	dump("hop5 done")
+	fmt.Println("  A: u1 =", w.Balance(A, tA, u1.Addr))
+}
